@@ -101,9 +101,12 @@ class IncludeNode(Node):
                     # The reference implementation seems to evaluate arguments once,
                     # before the loop.
                     context.raise_for_loop_limit(len(val))
-                    for itm in val:
-                        namespace[key] = itm
-                        template.render_with_context(context, buffer, partial=True)
+                    with context.loop_iterations(len(val)):
+                        for itm in val:
+                            namespace[key] = itm
+                            template.render_with_context(
+                                context, buffer, partial=True
+                            )
                 else:
                     namespace[key] = val
                     template.render_with_context(context, buffer, partial=True)
@@ -138,11 +141,12 @@ class IncludeNode(Node):
 
                 if isinstance(val, (tuple, list, IterableDrop)):
                     context.raise_for_loop_limit(len(val))
-                    for itm in val:
-                        namespace[key] = itm
-                        await template.render_with_context_async(
-                            context, buffer, partial=True
-                        )
+                    with context.loop_iterations(len(val)):
+                        for itm in val:
+                            namespace[key] = itm
+                            await template.render_with_context_async(
+                                context, buffer, partial=True
+                            )
                 else:
                     namespace[key] = val
                     await template.render_with_context_async(
